@@ -433,7 +433,7 @@ def check_tool_paths(ctx, tool):
                           n_.iter, ast.Call))]
     dropped = None
     n = 0
-    for g in workers:
+    for g in workers or [flat]:
         tfl = Table(prog, g)
         for p in tfl.paths:
             if not any(c.kind == 'loop' and c.pol for c in p.conds):
